@@ -326,12 +326,15 @@ def make_builtins(it):
     def _getattr(o, name, *default):
         if isinstance(name, SStr):
             raise Unsupported("getattr with symbolic name")
+        it._probing = bool(default)      # getattr with a default probes: a stub without the attribute answers AttributeError
         try:
             return it.getattr(o, name)
         except PyRaise as pr:
             if default and pr.exc.cls.is_subclass(bc["AttributeError"]):
                 return default[0]
             raise
+        finally:
+            it._probing = False
 
     @reg("setattr")
     def _setattr(o, name, v):
@@ -346,6 +349,7 @@ def make_builtins(it):
 
     @reg("hasattr")
     def _hasattr(o, name):
+        it._probing = True
         try:
             it.getattr(o, name)
             return True
@@ -353,6 +357,8 @@ def make_builtins(it):
             if pr.exc.cls.is_subclass(bc["AttributeError"]):
                 return False
             raise
+        finally:
+            it._probing = False
 
     @reg("callable")
     def _callable(o):
